@@ -69,6 +69,10 @@ def run(ctx):
                 'answer neither empty nor all states')
     ctx.model('MC_Sem.tla', 'MC_Sem_path1.cfg', timeout=1500)
     ctx.model('MC_Sem.tla', 'MC_Sem_ctl1.cfg', timeout=1500)
+    # R1: the elimination loop (fresh atoms on a private clone, left-to-right threading) as coded
+    ctx.model('MC_CTLSAlgo.tla', 'CTLSAlgo_q.cfg' if q else 'CTLSAlgo_t.cfg', timeout=3000)
+    res, _ = ctx.model('MC_CTLSAlgo.tla', 'CTLSAlgo_capture.cfg', timeout=600, expect_ok=False)
+    ctx.note('fresh_atom_capture_counterexample_at_design_level (observation KF-4, inputs not generated here)', 'ElimExact' in res['violated'])
     forms3 = gen.path_formulas_upto(3)
     forms4 = gen.path_formulas_upto(4)
     k2 = gen.small_scope(2)
